@@ -443,11 +443,11 @@ def r7_step_accounting(ctx: Context) -> None:
 
 
 def run(ctx: Context) -> None:
-    r1_monotone_clock(ctx)
-    r2_completion_time(ctx)
-    r3_loop_shape(ctx)
-    r4_never_earlier(ctx)
-    c16.r3_ordering_key(ctx, rule="C03.R5")
-    c16.r4_type_priorities(ctx, rule="C03.R5")
-    r6_fuzz_bounds(ctx)
-    r7_step_accounting(ctx)
+    ctx.isolate(r1_monotone_clock)
+    ctx.isolate(r2_completion_time)
+    ctx.isolate(r3_loop_shape)
+    ctx.isolate(r4_never_earlier)
+    ctx.isolate(c16.r3_ordering_key, rule="C03.R5")
+    ctx.isolate(c16.r4_type_priorities, rule="C03.R5")
+    ctx.isolate(r6_fuzz_bounds)
+    ctx.isolate(r7_step_accounting)
